@@ -65,7 +65,11 @@ func (x *fnExec) doCall(st *State, site ssa.Instruction, call *ssa.CallCommon, m
 	ord := x.siteOrd[site]
 	for _, ac := range x.c.AtCall {
 		if ac.Target == name && mode != "go" {
-			g := x.evalClause(st, x.ctx(st), ac)
+			actx := x.ctx(st)
+			for ai, a := range args {
+				actx.vars[fmt.Sprintf("$arg%d", ai)] = a
+			}
+			g := x.evalClause(st, actx, ac)
 			x.emit(st, fmt.Sprintf("atcall.%s.%s#%d", name, ac.Label, ord), "atcall", ac.Label, ac.Props, g, "before "+name+": "+ac.Src)
 		}
 	}
@@ -79,6 +83,14 @@ func (x *fnExec) doCall(st *State, site ssa.Instruction, call *ssa.CallCommon, m
 		for k, b := range mc.Bindings {
 			args = append(args, x.val(st, b))
 			fvNames = append(fvNames, callee.FreeVars[k].Name())
+		}
+	}
+	// (*regexp.Regexp).MatchString on a regexp compiled from a literal: interpreted exactly by the SMT theory of
+	// regular expressions (assumption: Go's regexp and SMT-LIB agree on the supported subset)
+	if callee != nil && callee.String() == "(*regexp.Regexp).MatchString" && len(args) == 2 && args[0].HasRegex {
+		if t, err := reMatchTerm(args[1].S, args[0].RegexLit); err == nil {
+			v.note("regexp %q: MatchString interpreted by SMT regular expressions", args[0].RegexLit)
+			return []Term{mkTerm(t, sBool, types.Typ[types.Bool])}, true
 		}
 	}
 	if c == nil {
